@@ -723,7 +723,9 @@ func (p *pool) wrapOn(kind string, c WrapCase, snd sender, caseJSON interface{},
 		panic(merr)
 	}
 
-	payID := c.PaySeed%1000 + 1
+	// the payload's NAME in the model: chosen apart from every other name of a case (key names 1..60, header constants
+	// < 1000, randomness 100000.. 304000, the 'other bytes' marker 999999), as the Dolev-Yao check of Corr.opaque_case requires
+	payID := c.PaySeed%1000 + 500001
 	sk := p.key(c.Sender)
 	sparty := c.Sender.Party
 
